@@ -5,9 +5,10 @@
    the correspondence check (bin/check C17).  That the time and thread id in a line are the
    TRUE ones is correspondence-only (harness: gettimeofday before/after, gettid of the emitting
    thread, also in a forked child); so is the equality of the abstract %.12g oracle with glibc. *)
+From Coq Require Import Reals.
 From Coq Require Import List ZArith Lia Bool Arith NArith.
 From Coq.Strings Require Import Byte.
-From Muduo Require Import Base_Bytes Gen_Consts Gen_C17 C17_Model C17_Proofs C17_Units.
+From Muduo Require Import Base_Bytes Gen_Consts Gen_C17 C17_Model C17_Proofs C17_Units C17_Flocq.
 Import ListNotations.
 Local Open Scope Z_scope.
 
@@ -197,9 +198,30 @@ Proof. vm_compute. repeat split. Qed.
    correctly rounded %.<p>f -- all through one primitive, [rne] = a rational rounded to the nearest
    integer, ties to even (C17_Model).  The ladders (tests, precisions, divisors, unit letters) are
    regenerated from LogStream.cc on every run (Gen_C17), so every statement below is re-proved for
-   the ladder the source has now.  That [rne]-arithmetic IS binary64/glibc arithmetic is not
-   proved here (no Flocq link): it is established by the correspondence run (every rung bound +-3,
-   the neighbours at the spacing of doubles, dense random n against the real functions). *)
+   the ladder the source has now.  That the conversion and the quotient of the model are IEEE-754
+   binary64 operations is C17_binary64_semantics (Flocq); that the hardware computes those, and
+   that glibc's %.<p>f is correctly rounded, is established by the correspondence run only (every
+   rung bound +-3, the neighbours at the spacing of doubles, decimal ties, dense random n against
+   the real functions). *)
+
+(* The model's conversion and quotient ARE IEEE-754 binary64 operations: [rnd64] is Flocq's
+   [round radix2 (FLT_exp (-1074) 53) ZnearestE], rounding to nearest, ties to even, into the
+   binary64 format on real numbers (the specification of Flocq's Binary.Bdiv / binary_normalize);
+   [b64_value m e] is the real number m * 2^e.  (1) static_cast<double>(n) for every n >= 0;
+   (2) a / b for all positive integers below 2^64; (3) the two in sequence as formatSI / formatIEC
+   use them; (4) every divisor of the regenerated ladders is itself a binary64 number.  This is the
+   only statement of C17 about real numbers: it depends on the axioms of Coq's Reals (printed below,
+   named in the trusted base).  Not covered: printf's %.<p>f (fixed_scaled) -- that glibc prints the
+   exact binary value correctly rounded to nearest even is tested by the correspondence run only. *)
+Theorem C17_binary64_semantics :
+  (forall n, 0 <= n -> IZR (to_double n) = rnd64 (IZR n)) /\
+  (forall a b m e, 0 < a < 2 ^ 64 -> 0 < b < 2 ^ 64 -> div_double a b = (m, e) ->
+     b64_value m e = rnd64 (IZR a / IZR b)) /\
+  (forall n d m e, 0 < n < 2 ^ 63 -> 0 < d < 2 ^ 64 -> div_double (to_double n) d = (m, e) ->
+     b64_value m e = rnd64 (rnd64 (IZR n) / IZR d)) /\
+  forallb divisor_exact si_ladder = true /\ forallb divisor_exact iec_ladder = true.
+Proof. exact binary64_semantics. Qed.
+Print Assumptions C17_binary64_semantics.
 
 (* the number printed is monotone in n for a fixed format (rne is monotone on rationals, hence so
    are the conversion, the quotient and the decimal rounding): the reason why a rung is bounded by
